@@ -10,12 +10,13 @@ in : `knn method=brute|vptree|covertree k=3 cb=plain|kernel metric=L1|Linf|matri
       [vs=..] [ids=<lists returned by the implementation>] [raw=<cover-tree candidate sets>] [brief=1]
       [tree=<preorder dump of the real cover tree> gs=<d/get_scale(d),..> ds=<s/dist_of_scale(s),..>]`
 out: `model=<obs;..> alt=<i,..> [impl=<obs;..> oracle=ok|bad@i:reason corr=ok|diff@i] [wrap=ok|diff@i|oob@i cq=ok|bad@i]
-      [wf=.. mq=.. mqorder=.. nodes=.. leafscale=..] [bt=ok|diff@r:..|err bh=ok|neg bls=ok|diff]`
+      [wf=.. mq=.. mqorder=.. nodes=.. leafscale=..] [bt=ok|diff@r:..|err bh=ok|neg bf=ok|table|bracket fuel=.. bls=ok|diff]`
 
 `bt` : the tree the Lean model of `batch_create` (`CoverBuild.batchCreate`, run over `Rat` with the scale functions given
 by the `gs` / `ds` tables of the values the real code computes) builds, compared record by record (point, scale, number
 of children, max_dist, parent_dist, preorder = children order) with the dumped real tree; `bh` : the hypothesis of
-`batchCreate_wf` on these scale values (`dist_of_scale >= 0`); `bls` : `leaf_scale`.
+`batchCreate_wf` on these scale values (`dist_of_scale >= 0`); `bf` : the hypothesis `ScalesOk` of
+`batchCreate_fuel_suffices` on them (the model runs with exactly that theorem's `fuel`); `bls` : `leaf_scale`.
 
 `obs` of one neighbour list `l` of sample `i` = `len:nodup:selfFree:inRange:sorted distances` — the level at which
 property C02 determines the result.  The oracle is `Knn.isExactKnn` (the Bool form of the `IsExactKnn` the theorems
@@ -174,8 +175,21 @@ def buildReport (sp : Space) (sh : Nat) (recs : List Rec) (leafScale : Nat) (gsS
     let δ : Nat → Nat → Rat := fun a b => (tab[a]!)[b]!
     let pts := List.range sp.N
     let bh := if !(ds.all fun e => decide (0 ≤ e.2)) then "neg" else "ok"
-    match CoverBuild.batchCreate δ (gsOf gsA) (dsOf dsA) 1000000 pts with
-    | none => s!"bt=err bh={bh}"
+    -- hypothesis `ScalesOk` of `batchCreate_fuel_suffices`: the table lists exactly the positive distances between
+    -- two samples, all scales lie in [sLow, sTop] = [min - 3, max + 1] (the range of the `ds` table: get_scale may be off by
+    -- one by rounding), dist_of_scale(sLow) < d <= dist_of_scale(sTop)
+    let dvals := ((pts.flatMap fun a => pts.map fun b => δ a b).filter fun d => decide (0 < d)).mergeSort
+      (fun a b => decide (a ≤ b)) |>.eraseDups
+    let lo := gs.foldl (fun m e => min m e.2) ((gs.head?.map (·.2)).getD 0)
+    let hi := gs.foldl (fun m e => max m e.2) ((gs.head?.map (·.2)).getD 0)
+    let sLow := lo - 3
+    let sTop := hi + 1
+    let bf := if dvals != gs.map (·.1) then "table"
+      else if gs.all fun e => decide (dsOf dsA sLow < e.1) && decide (e.1 ≤ dsOf dsA sTop) then "ok" else "bracket"
+    -- the model runs with exactly the fuel of `batchCreate_fuel_suffices`
+    let fuel := (sTop - sLow).toNat + 2
+    match CoverBuild.batchCreate δ (gsOf gsA) (dsOf dsA) fuel pts with
+    | none => s!"bt=err bh={bh} bf={bf} fuel={fuel}"
     | some (t, ls) =>
       let mine := flatten t
       let real : List (Nat × Nat × Nat × Rat × Rat) :=
@@ -186,7 +200,7 @@ def buildReport (sp : Space) (sh : Nat) (recs : List Rec) (leafScale : Nat) (gsS
           match ((mine.zip real).zipIdx.find? fun (ab, _) => ab.1 != ab.2) with
           | some ((a, _), i) => s!"diff@{i}:{showRec a}"
           | none => s!"diff@len:{mine.length}"
-      s!"bt={bt} bh={bh} bls={if ls == leafScale then "ok" else s!"diff:{ls}"}"
+      s!"bt={bt} bh={bh} bf={bf} fuel={fuel} bls={if ls == leafScale then "ok" else s!"diff:{ls}"}"
   | _, _ => "bt=unparsed"
 
 /-- `wf=..  mq=..  mqorder=..` : well-formedness certificate of the real tree, the model query run on it compared
